@@ -44,6 +44,13 @@ func VerifHarness_C08() {
 	o.MinNodes, o.MaxNodes = 0, N+2
 	fast := verifInt("fast", 0, int64(N)+1)
 	o.FastNodeRemovalRate, o.SlowNodeRemovalRate = int(fast), 0
+	dry := verifShape(7) // 1: controller-wide dry mode, 2: the group's own option; "tainting" is then the in-memory tracker
+	switch dry {
+	case 1:
+		w.dry = true
+	case 2:
+		o.DryMode = true
+	}
 	g := w.addGroup(o, 0, int64(N)+2, 0)
 	classes := []int{tcNone}
 	if sib == 1 {
@@ -53,7 +60,7 @@ func VerifHarness_C08() {
 	if ann == 1 {
 		annots = []int{0, 2} // the annotation protects from removal, not from tainting
 	}
-	w.symNodes("", g, N, classes, false, annots, true)
+	w.symNodes("", g, N, classes, dry > 0, annots, true) // in dry mode cordoned nodes are candidates like any other
 	if zero == 1 {
 		for i, n := range w.nodes {
 			if verifChoice("n"+strconv.Itoa(i)+".zeroCreation", 2) == 1 {
@@ -83,6 +90,16 @@ func VerifHarness_C08() {
 	mark := len(w.J.Calls)
 	_ = w.ctrl.RunOnce()
 	attempted, tainted := w.writeAttempts(mark, "NodeTaint")
+	if dry > 0 {
+		for i, n := range w.nodes {
+			for _, name := range w.ctrl.nodeGroups[o.Name].taintTracker {
+				if name == n.name {
+					attempted[i], tainted[i] = true, true
+					verifReach("C08.dry-tracked-one")
+				}
+			}
+		}
+	}
 	for i, t := range w.nodes {
 		if !tainted[i] {
 			continue
@@ -98,7 +115,7 @@ func VerifHarness_C08() {
 			verifAssert("C08.oldest-first", !(u.createAge > t.createAge))
 		}
 	}
-	if F == 0 {
+	if F == 0 && dry == 0 {
 		j := w.summarize(g, mark)
 		s := w.snap(g)
 		verifAssert("C08.count", verifImplies(s.untainted > 0, int64(j.taintAdds) == imin(fast, s.untainted)))
